@@ -155,6 +155,15 @@ def build():
     if "diff" in ra:
         raise GenError("WriteNode::remove_all now touches the diff: update the model (known class diff_misses_delete_all)")
     defs.append(("remove_all_bypasses_diff", "bool", "true"))
+    # WriteZone::commit unwraps the diff Arc: every node handle must be gone by then
+    rc = fn_body(up, "commit", after="impl ReopenableZoneWriter")
+    one(r"if\s+let\s+Some\(writable\)\s*=\s*self\.writable\.take\(\)\s*\{\s*drop\(writable\);\s*let\s+diff\s*=\s*self\s*\.write\s*\.as_mut\(\)\s*\.ok_or\(Error::Finished\)\?\s*\.commit\(false\)", rc, "ReopenableZoneWriter::commit drops the root handle first")
+    for fn in ("delete_record_from_rrset", "add_record_to_rrset"):
+        b = fn_body(up, fn, after="impl<N> ZoneUpdater<N>")
+        one(r"let\s+tree_node\s*=\s*self\.get_writable_child_node_for_owner\(&rec\)\.await\?;\s*let\s+tree_node\s*=\s*tree_node\.as_ref\(\)\.unwrap_or\(self\.write\.root\(\)\);", b, "%s keeps the node handle local" % fn)
+    if re.search(r"Box<dyn WritableZoneNode>", impl_body(up, r"pub struct ZoneUpdater<N")):
+        raise GenError("ZoneUpdater now stores a node handle: WriteZone::commit may panic on arc_into_inner")
+    defs.append(("commit_after_handles_dropped", "bool", "true"))
     # sender side: record order and the one-record-per-message mode
     sv = strip_comments(read("src/net/server/middleware/xfr/service.rs"))
     one(r"xfr_data\.compatibility_mode\(\)\s*&&\s*q\.qtype\(\)\s*==\s*Rtype::AXFR\s*,", sv, "compatibility mode only for AXFR questions")
